@@ -196,7 +196,9 @@ Theorem C16_guards_satisfiable :
 Proof. exact guards_satisfiable. Qed.
 Print Assumptions C16_guards_satisfiable.
 
-(* when exactly the constructor raises TypeError: all inputs *)
+(* when exactly the constructor raises TypeError: all inputs.  Since /repo commits 9553299 and
+   49764d9 (finding K16d fixed) [raises_spec] only holds when a number is entered by the search
+   while the item is a bytes pattern and strict_checking is off *)
 Theorem C16_raise_exact :
   forall (brepr : pystr -> pystr) (re_search excl_re : pystr -> bool) (re_text : pystr)
          (sa ba : list pystr) (c : config) (item : value) (obj : value),
@@ -204,27 +206,38 @@ Theorem C16_raise_exact :
     deep_search brepr re_search excl_re re_text sa ba c item obj = RRaise <->
     prepare brepr c item = PRaise \/
     (exists (cs : bool) (it : eitem),
-        prepare brepr c item = PItem cs it /\ raises_spec brepr excl_re re_text c cs it obj = true).
+        prepare brepr c item = PItem cs it /\ raises_spec brepr excl_re c cs it obj = true).
 Proof. exact final_raise_exact. Qed.
 Print Assumptions C16_raise_exact.
 
-(* a valid search can raise (K16d: str searched in an object holding bytes) ... *)
-Theorem C16_no_raise_refuted :
-  wf k16d_obj = true /\
-  deep_search id_repr no_re no_re [] [] [] k16f_cfg k16d_item k16d_obj = RRaise.
+(* DeepSearch is still not total (K16i): a bytes regular expression with strict_checking=False
+   raises on the first number, DeepSearch([1], b'1', use_regexp=True, strict_checking=False) ... *)
+Theorem C16_never_raises_refuted :
+  wf k16i_obj = true /\
+  prepare id_repr k16i_cfg k16i_item <> PRaise /\
+  deep_search id_repr no_re no_re [] [] [] k16i_cfg k16i_item k16i_obj = RRaise.
 Proof. exact no_raise_refuted. Qed.
-Print Assumptions C16_no_raise_refuted.
+Print Assumptions C16_never_raises_refuted.
 
-(* ... but without bytes the only TypeError is the documented one (use_regexp with a
-   non-string item) *)
-Theorem C16_no_raise_partial :
+(* ... and that is the only way: for EVERY object (bytes included), whenever the item is not a
+   bytes object, or strict_checking is on, or use_regexp is off, the only TypeError is the
+   documented one of __init__ (use_regexp with a non-string item) *)
+Theorem C16_never_raises_partial :
   forall (brepr : pystr -> pystr) (re_search excl_re : pystr -> bool) (re_text : pystr)
          (sa ba : list pystr) (c : config) (item : value) (obj : value),
-    wf obj = true -> bytes_free obj = true -> item_not_bytes item = true ->
+    wf obj = true ->
+    item_not_bytes item || strict c || negb (use_regexp c) = true ->
     deep_search brepr re_search excl_re re_text sa ba c item obj = RRaise ->
     prepare brepr c item = PRaise.
 Proof. exact no_raise_partial. Qed.
-Print Assumptions C16_no_raise_partial.
+Print Assumptions C16_never_raises_partial.
+
+(* the former K16d witness now returns a result: the str item is found in the str only *)
+Theorem C16_str_in_bytes_not_found :
+  deep_search id_repr no_re no_re [] [] [] k16f_cfg k16d_item k16d_obj
+  = ROk [EvValue [SIdx 1] (VAtom (AStr (s2p "abc")))].
+Proof. exact str_in_bytes_not_found. Qed.
+Print Assumptions C16_str_in_bytes_not_found.
 
 (* the result dictionary matched_values (keyed by path text): every entry comes from a
    reported location with that text and that value, and every reported location's text is a key *)
